@@ -121,14 +121,17 @@ class RouteScenario(explore.Scenario):
             f['sender'] = w.uniq[2] if c != 2 else w.uniq[0]
         elif fk == 'own':
             f['sender'] = w.uniq[c]
+        # content is a function of (client, template) only, so that the
+        # canonical state (which records queued templates) determines every
+        # byte still to be delivered
         w.sent_n += 1
-        serial = 500 + w.sent_n
-        body = ['payload-%d' % w.sent_n]
+        serial = 500 + 4 * ti + c
+        body = ['payload-%d' % ti]
         sig = 's'
         if dk == 'bus':
             sig, body = '', []
         raw = R.encode_message(t, serial, f, sig, body, flags=flags,
-                               little=(w.sent_n % 2 == 0))
+                               little=(ti % 2 == 0))
         return raw, {'c': c, 'ti': ti, 'serial': serial, 'fields': f,
                      'sig': sig, 'body': body, 'flags': flags, 'type': t,
                      'dk': dk}
@@ -325,7 +328,6 @@ class RouteScenario(explore.Scenario):
                              'but did not arrive'
                              % (meta['fields'], d, w.rules[d])))
             for m in copies:
-                w.delivered[d].append((c, m['serial']))
                 f = dict(meta['fields'])
                 f['sender'] = w.uniq[c]
                 if meta['sig']:
@@ -347,14 +349,10 @@ class RouteScenario(explore.Scenario):
                         PROP, tag, problems[0].split()[0]),
                         'message from client %d arrived at %d altered: %s'
                         % (c, d, '; '.join(problems))))
-        # per (sender, destination) order
-        for d in range(3):
-            for s in (0, 1):
-                seq = [x[1] for x in w.delivered[d] if x[0] == s]
-                if seq != sorted(seq):
-                    viol.append(('%s/order' % PROP,
-                                 'messages from %d arrived at %d out of '
-                                 'order: %r' % (s, d, seq)))
+        # (per-pair order: each client's queue is consumed first-in
+        # first-out and every copy must arrive at the consumption step of its
+        # own message - a copy showing up at any other step is reported as
+        # stray above - so arrival order equals sending order)
         return viol
 
     def canon(self, w):
@@ -464,7 +462,9 @@ def run(ctx):
         '(recipient by ownership at consumption time, exactly once, content '
         'identical but for the true sender, flags and typed header fields '
         'preserved, broadcasts by rule, bus calls answered and not '
-        'forwarded, nothing written to a lost connection, per-pair order). '
+        'forwarded, nothing written to a lost connection; a copy arriving at '
+        'any step other than the consumption of its message is stray, which '
+        'with first-in first-out consumption gives per-pair order). '
         'unique names: connect / disconnect / second Hello / calls to every '
         'name ever issued, to depth %d' % (len(TEMPLATES),
                                            5 if ctx.quick else 7))
